@@ -236,6 +236,8 @@ def verify(ctx, path, retlog, wit):
             return False
     # no row holds a partially written individual
     earlier = earlier_session_ids(retlog)
+    if earlier:
+        ctx.count("post_mortems_of_a_resumed_session")
     for i, row in rows.items():
         st = row.state
         vec = [float(v) for v in row.vector]
